@@ -445,6 +445,14 @@ theorem clone_list_eq_iff (T : Tables) {e : El} (hr : Reach T e) (hc : ∀ w ∈
 theorem created_list_all (T : Tables) (tag : Str) (sc : Bool) (l : List (Str × Option Str)) :
     viewList (mk T tag sc l) = createdList T l := viewList_mk_all T tag sc l
 
+/-- the same specification for the token model of C01–C03 / C13 (`intake`, `AttrState.view`, Model/Token.lean) — through
+    `mk_eq_intake` of Props/AttrStores.lean: the attribute clause of C02 ("attribute names are lower-cased with invalid names
+    dropped and the last duplicate winning") against `createdList`, a function that shares nothing with `intake` -/
+theorem intake_view_is_createdList (T : Tables) (hT : AttrStores.TablesOK T) (l : List (Str × Option Str)) :
+    (intake l AttrState.empty).view = createdList T l := by
+  rw [← AttrStores.intake_view_eq_attrs hT [] false l]
+  exact created_list_all T [] false l
+
 /-- "the last duplicate wins", per key, for every raw list: the value listed under a name other than class / style is
     the (normalised) value of the LAST entry whose lower-cased name it is -/
 theorem created_last_wins (T : Tables) (tag : Str) (sc : Bool) (l : List (Str × Option Str)) {k : Str}
@@ -1039,6 +1047,8 @@ def rawL : List (Str × Option Str) :=
 example : createdList T1 rawL = [("id".toList, some "3".toList), ("checked".toList, none),
     ("style".toList, some "color: red".toList), ("spellcheck".toList, some strTrue), (classK, some "r".toList)] := by decide
 example : viewList (mk T1 "div".toList false rawL) = createdList T1 rawL := created_list_all T1 _ _ _
+example : (intake rawL AttrState.empty).view = createdList AttrStores.sampleTables rawL :=
+  intake_view_is_createdList _ AttrStores.sampleTables_ok.1 rawL
 
 /-- the string-level re-parse on a concrete element: hypotheses satisfiable, both sides computed -/
 def Tgen : Tables := AttrStores.sampleTables
